@@ -30,7 +30,7 @@ CONFIG = dict(
     min_nontrivial={"quick": 1500, "thorough": 50000},
     nshards={"quick": 8, "thorough": 16},
     timeout={"quick": 600, "thorough": 3600},
-    required_counters=("steps", "probes", "shared_stream_probes", "inactive_states_probed", "long_lived_probes", "snapshots_compared", "static_answers_compared"),
+    required_counters=("reentrant_probes", "steps", "probes", "shared_stream_probes", "inactive_states_probed", "long_lived_probes", "snapshots_compared", "static_answers_compared"),
 )
 
 ADDSETS = {
@@ -299,9 +299,74 @@ def setup():
     return ml, hook, analysis, f, UnsafeFileError
 
 
+class _Nested:
+    def __init__(self, blob, adds):
+        self.blob, self.adds = blob, adds
+
+    def __reduce__(self):
+        import vp_sink
+        return (vp_sink.nested_load, (self.blob, self.adds))
+
+
+def reentrant_instances(ctx, mods, base):
+    """An allow-listing unpickler constructed while another one is loading (an allow-listed reconstructor that unpickles an
+    embedded blob with additions of its own): each of the two permits the built-in list plus its *own* additions - the
+    nested one does not see the enclosing one's, the enclosing one does not keep the nested one's."""
+    import collections
+    import vp_sink
+    ml, hook, analysis, f, U = mods
+    agg = ctx.agg
+    counter = b"ccollections\nCounter\n."
+    sinkk = b"cvp_sink\nK\n."
+    cases = [
+        # (label, outer additions, outer object, expected)
+        ("nested-with-own-addition", ["vp_sink.nested_load"], _Nested(counter, ["collections.Counter"]), "allowed"),
+        ("nested-does-not-see-outer-addition:new-member", ["vp_sink.nested_load", "collections.Counter"], _Nested(counter, None), "blocked"),
+        ("nested-does-not-see-outer-addition:new-module", ["vp_sink.nested_load", "vp_sink.K"], _Nested(sinkk, None), "blocked"),
+        ("outer-does-not-keep-nested-addition:new-member", ["vp_sink.nested_load"],
+         (_Nested(counter, ["collections.Counter"]), collections.Counter), "blocked"),
+        ("outer-does-not-keep-nested-addition:new-module", ["vp_sink.nested_load"],
+         (_Nested(b"cvp_other\nK\n.", ["vp_other.K"]), __import__("vp_other").K), "blocked"),
+        ("outer-keeps-its-own-after-nested", ["vp_sink.nested_load", "collections.Counter"],
+         (_Nested(b"K\x01.", ["vp_other.K"]), collections.Counter), "allowed"),
+    ]
+    for label, adds, obj, want in cases:
+        for proto in (2, 4):
+            data = pickle.dumps(obj, proto)
+            for via in ("instance", "hook"):
+                key = h(repr(("reentrant", label, proto, via)).encode())
+                if not agg.case(key, True, {"reentrant": label, "via": via, "protocol": proto}):
+                    continue
+                del vp_sink.LOG[:]
+                try:
+                    if via == "instance":
+                        got = outcome(lambda: ml.FicklingMLUnpickler(io.BytesIO(data), also_allow=list(adds)).load(), U)
+                    else:
+                        hook.activate_safe_ml_environment(also_allow=list(adds))
+                        got = outcome(lambda: pickle.loads(data), U)
+                finally:
+                    pickle.load, pickle.loads, _pickle.load, _pickle.loads = ORIG
+                ran = any(e[0] == "nested_load" for e in vp_sink.LOG)
+                del vp_sink.LOG[:]
+                agg.count("reentrant_probes")
+                if not ran:
+                    agg.inconclusive.append(f"harness: the nested reconstructor never ran for {label}")
+                    continue
+                if got != want:
+                    agg.violation(f"nested-instance-allowlist:{'leak' if got == 'allowed' else 'over-blocked'}",
+                                  f"{label} ({via}, enclosing additions {adds}): {got}, model says {want}",
+                                  {"reentrant": label, "via": via, "protocol": proto})
+    if ml.ML_ALLOWLIST != base:
+        agg.violation("builtin-allowlist-mutated", "fickling.ml.ML_ALLOWLIST changed during nested unpicklings", {"reentrant": "any"})
+        ml.ML_ALLOWLIST.clear()
+        ml.ML_ALLOWLIST.update(copy.deepcopy(base))
+
+
 def run_shard(ctx):
     mods = setup()
     base = copy.deepcopy(mods[0].ML_ALLOWLIST)
+    if ctx.shard == ctx.nshards - 1 or ctx.nshards == 1:
+        reentrant_instances(ctx, mods, base)
     static0 = static_answer(mods)
     for hist in histories(ctx):
         run_history(ctx, mods, base, static0, hist)
@@ -311,4 +376,7 @@ def run_shard(ctx):
 def replay(ctx, payload):
     mods = setup()
     base = copy.deepcopy(mods[0].ML_ALLOWLIST)
+    if "reentrant" in payload["case"]:
+        reentrant_instances(ctx, mods, base)
+        return
     run_history(ctx, mods, base, static_answer(mods), payload["case"]["history"])
